@@ -61,6 +61,7 @@ def solve_campaign(ctx, n_systems, gen_kw=None, case_kw=None, filt=None, variant
             rr = kw.pop("rail_rep", False)
             c = drv_solve.solve_case(s, len(cases), rail_rep=rr, **kw)
             c["want"], c["haswant"] = drv_solve.want_of(st[-1]["sys"]), True
+            c["wantlim"] = drv_solve.wantlim_of(g)
             cases.append(c)
             structs.add(struct_digest(c["st"]))
             if post:
@@ -146,7 +147,19 @@ def edit_and_resolve(s, cases, rng, rail_rep, kw):
              for x in c["par"] if comps[x]["par"]]
     edit = None
     try:
-        if muxin and rng.random() < 0.6:
+        r0 = rng.random()
+        if st["sysph"] and r0 < 0.3:
+            # the system phases are re-declared with other durations (24 h energies, averages and shares follow), or
+            # cleared altogether: components keep their phase configuration, but only the unnamed phase "" is solved
+            if rng.random() < 0.6:
+                s.set_sys_phases({p["name"]: float("%.3g" % (rng.uniform(0.2, 5.0) * (i + 1))) for i, p in enumerate(st["sysph"])})
+                kw = dict(kw, energy=True)
+                what = "system phases re-declared with other durations"
+            else:
+                s.set_sys_phases({})
+                kw = {k: v for k, v in kw.items() if k != "phase"}
+                what = "system phases cleared"
+        elif muxin and rng.random() < 0.6:
             # remove an intermediate component that is a mux input: the mux must keep its input order, with the removed
             # component's parent in its place (SysTree!DelCompEff)
             m, x = rng.choice(muxin)
@@ -235,14 +248,16 @@ def run_c01(ctx):
                 "numeric instantiations (random in range, constant and 1-D/2-D tabulated parameters, both polarities, "
                 "1-3 sources, mux with 1-4 inputs, phases) of TLC-generated construction histories; every component row "
                 "of every phase is held to C01.Link.* and C01.Law.*; distinct_nontrivial = distinct structures",
-                gen_kw=dict(neg=0.3, tables=0.4), case_kw=std_case_kw, extra_fixed=[_f1_system], matrix=(400, 2000))
+                gen_kw=dict(neg=0.3, tables=0.4, zero_src=0.12), case_kw=std_case_kw, extra_fixed=[_f1_system], matrix=(400, 2000),
+                skel=(150, 8000))
 
 
 def run_c02(ctx):
     return _run(ctx, "C02", 150, 3000,
                 "as C01 with ta in {-40,0,25,85}, random thermal resistances, loads with loss true/false; every row is held to "
                 "the accounting clauses (power, loss range, efficiency, row energy, thermal) and every phase to the system balance",
-                gen_kw=dict(neg=0.3, tables=0.4), case_kw=std_case_kw, extra_fixed=[_f1_system], matrix=(400, 2000))
+                gen_kw=dict(neg=0.3, tables=0.4, zero_src=0.12), case_kw=std_case_kw, extra_fixed=[_f1_system], matrix=(400, 2000),
+                skel=(100, 8000))
 
 
 def has_mux(sysst):
